@@ -275,6 +275,29 @@ def pause_lock_protocol(ctx: Ctx, rule: str) -> None:
     ctx.floor(rule, n_sites, 1, "pass-through sites of a pause lock")
 
 
+def rabbit_pause_flag(ctx: Ctx, rule: str) -> None:
+    """RabbitMQ flow control: pause() raises a flag that on_new_message honours (deliveries are bounced while it is up) and unpause() must lower
+    the SAME flag - a flag that is raised but never lowered makes the consumer bounce every delivery for ever after its first saturation (stall)."""
+    cq = C.RABBIT_CONS
+
+    def const_stores(fn, value):
+        return {dotted(t) for a in ast.walk(fn.node) if isinstance(a, ast.Assign) and C.is_const(a.value, value) for t in a.targets if (dotted(t) or "").startswith("self.")}
+
+    pause, unpause, onm = ctx.func(f"{cq}.pause"), ctx.func(f"{cq}.unpause"), ctx.func(f"{cq}.on_new_message")
+    raised, lowered = const_stores(pause, True), const_stores(unpause, False)
+    reads = {dotted(a) for t in [x.test for x in ast.walk(onm.node) if isinstance(x, (ast.If, ast.IfExp, ast.While))] for a in ast.walk(t) if isinstance(a, ast.Attribute)}
+    honoured = raised & reads
+    ctx.check(bool(honoured), rule, onm, "rabbitmq on_new_message honours the pause flag", f"tests {sorted(honoured)}",
+              f"rabbitmq pause() raises {sorted(raised) or 'no flag'} but on_new_message tests {sorted(r for r in reads if r.startswith('self.'))}: pausing has no effect on deliveries already on their way",
+              instance="rabbitmq pause flag honoured")
+    ctx.check(bool(honoured) and honoured <= lowered, rule, unpause, "rabbitmq unpause lowers the flag pause raised", f"{sorted(honoured)} = False",
+              f"rabbitmq unpause() lowers {sorted(lowered) or 'no flag'} while pause() raises (and on_new_message tests) {sorted(honoured)}: after the first saturation the consumer stays paused and "
+              "bounces every delivery - the worker stalls", instance="rabbitmq pause flag lowered")
+    init = ctx.func(f"{cq}.__init__")
+    ctx.check(honoured <= const_stores(init, False), rule, init, "rabbitmq consumer starts unpaused", "flag initialised False",
+              "rabbitmq consumer does not initialise its pause flag to False", instance="rabbitmq pause flag initial")
+
+
 # ----------------------------------------------------------------------------- the actor's lifetime is inside its slot
 DETACHING = {"shield", "create_task", "ensure_future", "run_coroutine_threadsafe", "gather", "wait", "as_completed", "to_thread"}
 
@@ -322,3 +345,28 @@ def actor_contained(ctx: Ctx, rule: str) -> None:
         ctx.check(why is None, rule, fn, "the actor coroutine is awaited by actor_run (directly or under wait_for)", "its lifetime ends with the processing task, timeout cancels it",
                   f"{fn.short()} does not await the actor's coroutine in place: {why} - after a timeout or cancellation of the processing task the actor body keeps running while its slot "
                   "is released, so more than tasks_limit actor bodies are in progress", node=call, instance=f"{fn.short()}: actor awaited in place")
+
+
+def sync_actor_contained(ctx: Ctx, rule: str) -> None:
+    """Synchronous actors run in an executor. The wrapper built by asyncify owns that executor for the duration of the call (`with Executor() as pool`):
+    leaving the `with` - also when the awaiting task was cancelled by the execution timeout - waits for the worker thread / process, so the invocation
+    is over before the slot is released. A shared or default executor (run_in_executor(None, ...)) lets the function run on after its slot was reused."""
+    f = ctx.func("repid._asyncify.asyncify")
+    inner = [nf for nf in f.nested.values() if nf.is_async]
+    ctx.require(len(inner) == 1, f"{f.qualname}: the async wrapper not found")
+    w = inner[0]
+    runs = [c for c in ast.walk(w.node) if isinstance(c, ast.Call) and isinstance(c.func, ast.Attribute) and c.func.attr == "run_in_executor"]
+    ctx.floor(rule, len(runs), 1, "run_in_executor calls in asyncify")
+    withs = [x for x in ast.walk(w.node) if isinstance(x, (ast.With, ast.AsyncWith))]
+    for c in runs:
+        pool = c.args[0] if c.args else None
+        owner = None
+        if isinstance(pool, ast.Name):
+            for wi in withs:
+                if any(isinstance(it.optional_vars, ast.Name) and it.optional_vars.id == pool.id for it in wi.items) and any(x is c for x in ast.walk(wi)):
+                    owner = wi
+        ok = owner is not None and all(isinstance(it.context_expr, ast.Call) for it in owner.items)
+        ctx.check(ok, rule, w, f"{unparse(c)[:60]}: executor owned by the call", "with Executor() as pool: ... run_in_executor(pool, ...)",
+                  f"asyncify runs the synchronous callable with {unparse(c)[:80]}: the executor is not created and shut down (waited for) around this one call, so after an execution timeout "
+                  "or cancellation the function keeps running in its thread while the slot it occupied is given to the next message (more than tasks_limit actor bodies in progress)",
+                  node=c, instance="asyncify: executor scoped to the call")
